@@ -105,14 +105,15 @@ Proof.
 Qed.
 
 (* every block list survives chunk_encode + strict dechunking, whatever follows on the connection *)
-Theorem chunked_roundtrip first later rest :
-  small (N.of_nat (length first)) -> Forall (fun b => small (N.of_nat (length b))) later ->
-  dechunk (S (S (length later))) (chunk_encode first later ++ rest) [] = Some (first ++ concat later, rest).
+Theorem chunked_roundtrip_fuel f first later rest :
+  small (N.of_nat (length first)) -> Forall (fun b => small (N.of_nat (length b))) later -> (S (length later) < f)%nat ->
+  dechunk f (chunk_encode first later ++ rest) [] = Some (first ++ concat later, rest).
 Proof.
-  intros Hf Hl. unfold chunk_encode. rewrite <- !app_assoc.
+  intros Hf Hl Hfu. unfold chunk_encode. rewrite <- !app_assoc.
   destruct first as [|c f'].
   - cbn [chunk_with app]. rewrite chunks_decode by (assumption || lia). reflexivity.
-  - set (b := c :: f') in *. unfold chunk_with. fold b. change (match b with [] => [] | _ :: _ => ?x end) with x.
+  - destruct f as [|f]; [lia|].
+    set (b := c :: f') in *. unfold chunk_with. fold b. change (match b with [] => [] | _ :: _ => ?x end) with x.
     rewrite <- !app_assoc.
     destruct (span_hexbytes (N.of_nat (length b)) (CR :: LF :: b ++ CR :: LF :: concat (map (chunk_with hexmin) later) ++ last_chunk ++ rest) eq_refl)
       as (ds & Hspan & Hval & Hne).
@@ -123,6 +124,11 @@ Proof.
     + rewrite Hval. apply val_digs. exact Hf.
     + cbn [app]. exact Hspan.
 Qed.
+
+Theorem chunked_roundtrip first later rest :
+  small (N.of_nat (length first)) -> Forall (fun b => small (N.of_nat (length b))) later ->
+  dechunk (S (S (length later))) (chunk_encode first later ++ rest) [] = Some (first ++ concat later, rest).
+Proof. intros. apply chunked_roundtrip_fuel; auto. Qed.
 
 (* ---------------------------------------------------------------- the framing decision *)
 (* hypotheses on the handler: a Content-Length it sets is the length of what it produces; it does not frame by itself *)
